@@ -33,6 +33,14 @@ def env(ctx):
     return dict(stage=st, shim=shim, verif=VERIF, root=os.path.join(ctx.work, "fsrun")), digital_rf
 
 
+def env_for(env, i):
+    """where job number i records: every third job under a directory whose name starts with `tmp.` (a mkdtemp directory,
+    a channel kept under data/mytmp.dir) - only the file-name prefix `tmp.` marks a file in progress, never the path"""
+    if i % 3 != 1:
+        return env
+    return dict(env, root=os.path.join(os.path.dirname(env["root"]), "tmp.Xq3vT9bZ1k", "mytmp.dir", os.path.basename(env["root"])))
+
+
 def account(ctx, scen, what):
     ev = [e for s in scen for e in s["events"]]
     kinds = {}
